@@ -715,7 +715,52 @@ def _only_under_abs(t) -> bool:
     return True
 
 
+def rule_mixed(ctx):
+    """Every spelling INDI allows denotes its value: the two separators of a three-field sexagesimal text are chosen
+    independently from ':', ';' and blank (27 sign x separator combinations), and the validator of the message parts
+    accepts each of them.  Decided by constant evaluation of str_to_num / checks.number (regular expressions folded on
+    constants, so also patterns outside the regular fragment - back-references - are decided here)."""
+    p = ctx.p
+    f = _values_fn(p, "str_to_num")
+    chk = p.func("indi.message.checks.number")
+    n = 0
+    bad = False
+    for sign, sgn in (("", 1.0), ("-", -1.0), ("+", 1.0)):
+        for s1 in ":; ":
+            for s2 in ":; ":
+                text = f"{sign}10{s1}30{s2}15.5"
+                want = sgn * (10 + 30 / 60 + 15.5 / 3600)
+                n += 1
+                for fmt in ("%010.6m", "%f"):
+                    paths = run_method(p, f, args=[Const(text), Const(fmt)], opts={"inline": lambda fi, node: fi.module.name == "indi.device.values"})
+                    ctx.paths_enumerated += len(paths)
+                    if len(paths) != 1:
+                        ctx.undecided("C10.MIXED", f.short, f"str_to_num({text!r}, {fmt!r}) is not decided by constant evaluation ({len(paths)} paths)", fi=f)
+                        bad = True
+                        continue
+                    pa = paths[0]
+                    ok = pa.outcome == "return" and isinstance(pa.value, Const) and isinstance(pa.value.v, (int, float)) and abs(pa.value.v - want) < 1e-9
+                    if not ok:
+                        got = f"raises {show(pa.value)[:40]}" if pa.outcome != "return" else f"gives {show(pa.value)[:30]}"
+                        ctx.violated("C10.MIXED", f.short, f"str_to_num({text!r}, {fmt!r}) {got}; the text denotes {want!r} (each separator may independently be ':', ';' or a blank)", fi=f, text=f"mixed:{'raise' if pa.outcome != 'return' else 'value'}", witness=text)
+                        bad = True
+                paths = run_method(p, chk, args=[Const(text)], opts={"inline": lambda fi, node: fi.module.name == "indi.message.checks"})
+                okc = len(paths) == 1 and paths[0].outcome == "return" and isinstance(paths[0].value, Const) and paths[0].value.v == text
+                if not okc:
+                    ctx.violated("C10.MIXED", chk.short, f"the part validator does not accept the number text {text!r} unchanged (it is legal INDI: each separator may independently be ':', ';' or a blank)", fi=chk, text="mixed:validator", witness=text)
+                    bad = True
+                if bad:
+                    break
+            if bad:
+                break
+        if bad:
+            break
+    if not bad:
+        ctx.holds("C10.MIXED", f.short, f"{n} sign x separator combinations of a three-field text: accepted by the validator and parsed to the value they denote under a sexagesimal and a printf format", fi=f)
+
+
 RULES += [
+    ("C10.MIXED", rule_mixed, "27 sign x separator combinations (separators chosen independently) validate and parse to their value"),
     ("C10.SIGN", rule_sign, "parse: value = sign x (whole + minutes/60 + seconds/3600) as a linear form in the captured fields on every path"),
     ("C10.SIGNR", rule_sign_render, "render: separate leading sign, fields from the magnitude; no field after ':' can reach 60 (carry)"),
 ]
